@@ -234,6 +234,10 @@ func (w *W) Violation(monitor, sig string, c interface{}, expected, observed int
 	}
 	w.viol = append(w.viol, Violation{Property: w.Prop, Monitor: monitor, Sig: sig, Seed: w.Seed, Shard: w.Shard,
 		Case: raw, Expected: jsonSafe(expected), Observed: jsonSafe(observed), Detail: detail})
+	// on disk at once: what a monitor has seen stands even if the process is killed by a later case
+	if w.Dir != "" {
+		writeJSON(filepath.Join(w.Dir, fmt.Sprintf("shard-%d.viol.json", w.Shard)), w.viol)
+	}
 }
 
 func (w *W) NViol() int { return w.st.NViol }
